@@ -93,8 +93,6 @@ def run(ctx):
         n = 0
         ok = True
         for bb, t in b.calls():
-            nm = t["callee"].get("resolved") or t["callee"]["path"]
-            if nm.endswith("::index") and "SubstitutionSet" in (t["callee"].get("path_args") or "") or \
-                    (nm.endswith("::index") and "Option<std::rc::Rc<unifiable::Unifiable>>" in (t["callee"].get("path_args") or "")):
+            if utable.is_ss_lookup(t):
                 n += 1
         ctx.ob("R2", name, n >= 1, ctx.where(b), "%d chain lookups ss[id]" % n)
